@@ -652,6 +652,11 @@ def heap_keys_of_modifies(ex, st, targets, cx):
         if t.startswith('heap:'):
             out[t[5:]] = None
             continue
+        if t.startswith('all-dicts:'):
+            dk, ds, vk, vs = ex.dkeys(ex.tenv.parse(t[len('all-dicts:'):]))
+            out[dk] = None
+            out[vk] = None
+            continue
         content = t.endswith('[*]')
         base = t[:-3] if content else t
         tree = ast.parse(base, mode='eval').body
@@ -849,6 +854,22 @@ def find_block(fn_node, where):
                     i0, i1 = lst.index(na), lst.index(nb)
                     return lst[i0 + (1 if excl else 0):i1 + 1]
         raise VCError(f'anchor-missing: loops of {where!r} are not in one statement list')
+    mb = re.fullmatch(r'between:(.+?)::(.+)', where, flags=re.S)
+    if mb:
+        # the statements of one list from the first that starts with <start> up to (not including) the first later one
+        # that starts with <end>
+        p0, p1 = mb.group(1), mb.group(2)
+        for n in ast.walk(fn_node):
+            for fld in ('body', 'orelse', 'finalbody'):
+                lst = getattr(n, fld, None)
+                if isinstance(lst, list):
+                    for i_, st_ in enumerate(lst):
+                        if isinstance(st_, ast.stmt) and ast.unparse(st_).startswith(p0):
+                            for j_ in range(i_ + 1, len(lst)):
+                                if ast.unparse(lst[j_]).startswith(p1):
+                                    return lst[i_:j_]
+                            raise VCError(f'anchor-missing: no statement starting with {p1!r} after {p0!r}')
+        raise VCError(f'anchor-missing: no statement starts with {p0!r}')
     mt = re.fullmatch(r'from:(.+):(\d+)', where, flags=re.S)
     if mt:
         # <count> consecutive statements starting at the first statement whose source text starts with <prefix>
